@@ -1702,3 +1702,29 @@ Proof.
   induction ds as [|d ds IH]; [constructor|]. unfold unjoin in *. cbn [flat_map]. rewrite flat_map_app.
   apply Permutation_app; [apply unjoin_dist_vars | exact IH].
 Qed.
+
+
+(* ================= remove_unused_parameters_and_rvs never removes a random variable that is used ================= *)
+Lemma unused_keeps_used_rvs_lemma symbols dists n :
+  In n (flat_map rdist_names dists) -> In n symbols -> In n (unused_new_rv_names symbols dists).
+Proof.
+  intros Hn Hs. unfold unused_new_rv_names, unused_new_dists.
+  assert (Hu : In n (flat_map rdist_names (unjoin (to_unjoin symbols dists) dists))).
+  { eapply Permutation_in; [apply Permutation_sym; apply unjoin_names_perm | exact Hn]. }
+  apply in_flat_map in Hu. destruct Hu as [d [Hd Hnd]].
+  apply in_flat_map. exists d. split; [|exact Hnd].
+  apply filter_In. split; [exact Hd|].
+  destruct d as [n' v|ns m]; [|reflexivity].
+  cbn [rdist_names] in Hnd. destruct Hnd as [<-|[]].
+  apply interp_nonempty_spec. exists n'. split; [left; reflexivity | exact Hs].
+Qed.
+
+(* ... and nothing is invented: every remaining random variable was one before *)
+Lemma unused_rvs_sub symbols dists n :
+  In n (unused_new_rv_names symbols dists) -> In n (flat_map rdist_names dists).
+Proof.
+  unfold unused_new_rv_names, unused_new_dists. intros H. apply in_flat_map in H. destruct H as [d [Hd Hnd]].
+  apply filter_In in Hd. destruct Hd as [Hd _].
+  apply (Permutation_in n (unjoin_names_perm (to_unjoin symbols dists) dists)).
+  apply in_flat_map. exists d. split; assumption.
+Qed.
